@@ -99,3 +99,13 @@ CHECKS['C17'] = dict(title='Text-block formatting preserves the words and respec
     rule='input = configuration x word sequence x separator sequence (odometer); states = inputs, transitions = TextBlock::format calls; non-trivial = inputs whose output has more than one line',
     bound={'quick': 'W 8..12 x indent 0..3 x 2 modes; texts of 1..4 words, 8-10 word shapes, 2 separators', 'thorough': 'texts of 1..5 words (6 for W=8, indent=3)'},
     assumptions=['the first line is measured as if the caller had already written the indentation when indentFirst is off (this is how the class is used by the usage printer)'])
+
+_ARGS_NOTE = 'trusts the abstract evaluator (harness/args.hpp, rules cited in DESIGN.md appendix A) and libstdc++/boost; bounded by the number of arguments, uses and the value/key alphabets'
+CHECKS['C01'] = dict(title='Command-line values reach their typed destinations, whatever the spelling', engine='xenum',
+    harness=['harness/c01_spellings.cpp'], flags='asan', lib=True, level='model_checking', deadline={'quick': 240, 'thorough': 2400}, hang_s=60,
+    technique='bounded-exhaustive enumeration: all argument configurations of a size x all assignments x ALL surface spellings and orders, executed on the real Handler against an abstract evaluator',
+    level_text='every configuration of 2 (quick) / 3 (thorough) arguments over 7 destination kinds, 3 key kinds, prefix-sharing long keys, abbreviations on/off; every assignment from the value domains; every legal spelling (short/long/=/glued/abbreviation/flag group) and order; each evaluated and compared with the intended typed values',
+    level_note=_ARGS_NOTE,
+    rule='configuration x subset of arguments x values (odometer) x surface forms (odometer over per-use spellings + flag grouping) x permutations; states = configurations, transitions = evalArguments calls; non-trivial = configurations',
+    bound={'quick': '2 arguments, all kinds/keys, all spellings, both orders', 'thorough': '+ 3 arguments (4 kinds), <=3 spelling deviations in definition order, all 6 orders with <=1 deviation'},
+    assumptions=['values beginning with a dash are only spelled attached (= / glued): as a separate word they are keys by definition', 'flag variables start false (an initially-true flag variable is unspecified, see DESIGN appendix A4)'])
